@@ -197,7 +197,9 @@ func TestVerifC13(t *testing.T) {
 	allDays := []string{"2024-01-07", "2024-01-08", "2024-01-09", "2024-01-10", "2024-01-11"}
 	xs := []float64{0.5, 0.05, 5e-05, 0.25}
 	pool := zzvPool()
-	sizes := []int{0, 65535, 65536, 65537, 100000}
+	// The stored object is the server's re-encoding of the request (HTML-escaping can make it
+	// longer than the 100 KiB request limit), so sizes beyond that limit occur too.
+	sizes := []int{0, 65535, 65536, 65537, 100000, 102401, 150000}
 	maxN := 2
 	if p.Thorough() {
 		maxN = 3
@@ -226,7 +228,7 @@ func TestVerifC13(t *testing.T) {
 					}
 					sz := 0
 					if len(pool[c].Programs) > 0 && (c+d+x)%3 == 0 {
-						sz = 1 + (c+2*d+x)%4 // a large size class for a third of the items
+						sz = 1 + (c+2*d+x)%6 // a large size class for a third of the items
 					}
 					if len(cur) > 0 && x > 1 && c > 2 {
 						continue // prune: keep the space tractable
